@@ -51,7 +51,17 @@ def main():
                           "crate_tests_with_change": r.get("existing_tests"), "demonstration": demo,
                           "checks": r.get("checks"), "ran": "tools/seedtest.py seeded/%s (scratch worktree of /repo HEAD + VERIF_REPO alternative workspace)" % name}
         json.dump(m, open(mp, "w"), indent=1)
-    out = [BEGIN, "", "| seeded change | what it does | demonstration | result of the property's check | violation key | crate tests with the change |", "|---|---|---|---|---|---|"]
+    n_ind = sum(1 for r in rows if not r[0].startswith("legacy_"))
+    n_leg = sum(1 for r in rows if r[0].startswith("legacy_"))
+    intro = ("%d changes were written by independent sub-agents that saw only the property text and a scratch worktree "
+             "(waves 1-4: `seeded/C??_{1..8}`; later waves were told which sites earlier ones had used), plus %d reverse patches of the "
+             "`fix:` commits (`seeded/legacy_*`). Each was confirmed by the coordinator with `tools/seedtest.py` (patch applies at HEAD, the "
+             "crate's own 81 tests still pass - two timing-based store tests flake under machine load -, the demonstration fails with and "
+             "passes without the change; Python demonstrations of C18 were run by hand against the rebuilt module) and then run against the "
+             "property's check in an alternative workspace. Every MISSED entry was followed by a strengthening of the check (see 11.3 / "
+             "11.3b) and a re-run; the table shows the LAST result of each. `no-failing-input-found` = only the proof / translated tie / "
+             "correspondence broke." % (n_ind, n_leg))
+    out = [BEGIN, "", intro, "", "| seeded change | what it does | demonstration | result of the property's check | violation key | crate tests with the change |", "|---|---|---|---|---|---|"]
     for r in rows:
         out.append("| `%s` | %s | %s | %s | %s | %s |" % tuple(x.replace("|", "/") for x in r))
     out += ["", END]
@@ -61,7 +71,7 @@ def main():
     if BEGIN in s:
         s = s[:s.index(BEGIN)] + block + s[s.index(END) + len(END):]
     else:
-        s += "\n\n### 11.5 Seeded changes: which check catches which change\n\nForty changes were written by independent sub-agents that saw only the property text and a scratch worktree (two per property, `seeded/C??_{1,2}`; a second wave `_3`, `_4` for some), plus one reverse patch per `fix:` commit (`seeded/legacy_*`). Each was confirmed by the coordinator with `tools/seedtest.py` (patch applies at HEAD, the crate's own tests still pass - two timing-based store tests flake under load -, the demonstration fails with and passes without the change) and then run against the property's check in an alternative workspace. MISSED entries were followed by a strengthening of the check (see the property's entry in 11.3) and a re-run; the table shows the LAST result.\n\n" + block + "\n"
+        s += "\n\n### 11.5 Seeded changes: which check catches which change\n\n" + block + "\n"
     open(p, "w").write(s)
     print("rows:", len(rows), "missed:", sum("MISSED" in r[3] for r in rows))
 
